@@ -478,7 +478,9 @@ class Expr2Mixin:
             yield st, VFunc('builtin', (f"{base.name}.{attr}",))
             return
         if isinstance(base, VFunc) and base.tag == 'builtin':
-            yield st, VFunc('builtin', (f"{base.data[0]}.{attr}",))
+            nm = base.data[0]
+            nm = {'itertools.chain': 'chain'}.get(nm, nm)
+            yield st, VFunc('builtin', (f"{nm}.{attr}",))
             return
         if isinstance(base, VFunc) and base.tag == 'class':
             yield st, self.class_attr(st, base.data[0], attr)
